@@ -323,4 +323,101 @@ example :
       | _, _ => false) = true := by
   decide +kernel
 
+/-! ### (d) Parentheses on expressions: grouping adjacent axes of an expression and reshaping the tensor -/
+
+theorem dimsL_append (m : Bool) (a b : List Expr) : dimsL m (a ++ b) = dimsL m a ++ dimsL m b := by
+  induction a with
+  | nil => simp [dimsL]
+  | cons x a ih => simp [dimsL, ih]
+
+/-- The expression `pre (mid) post`: the adjacent root expressions `mid` wrapped in parentheses. -/
+def grouped (pre mid post : List Expr) : Expr := .list (pre ++ [.flat (.list mid)] ++ post)
+/-- The expression `pre mid post`. -/
+def ungrouped (pre mid post : List Expr) : Expr := .list (pre ++ mid ++ post)
+
+theorem rootDims_grouped (pre mid post : List Expr) :
+    rootDims (grouped pre mid post) = dimsL false pre ++ [Dim.flat (dimsL false mid)] ++ dimsL false post := by
+  simp [grouped, rootDims, dims, dimsL_append, dimsL]
+
+theorem rootDims_ungrouped (pre mid post : List Expr) :
+    rootDims (ungrouped pre mid post) = dimsL false pre ++ dimsL false mid ++ dimsL false post := by
+  simp [ungrouped, rootDims, dims, dimsL_append]
+
+/-- The flat sizes of `pre (mid) post` and `pre mid post` agree: the reshape between them is legal. -/
+theorem prod_shapeOf_grouped (pre mid post : List Expr) :
+    prod (shapeOf (grouped pre mid post)) = prod (shapeOf (ungrouped pre mid post)) := by
+  rw [shapeOf_eq, shapeOf_eq, rootDims_grouped, rootDims_ungrouped]
+  exact prod_viewShape_regroup _ _ _
+
+/-- **Grouping axes of the input expression of a reduction with parentheses (and reshaping the tensor) leaves the
+result unchanged.**  The reshape `pre mid post → pre (mid) post` keeps the row-major order of the elements, so the
+symbolic results -- over the flat input positions -- are *equal*; `mid` may contain bracketed axes (`a [b c]` vs
+`a ([b c])`). -/
+theorem denote_reduce_regroup_input (f : String) (pre mid post : List Expr) (eo : Expr)
+    (h1 : (grouped pre mid post).concatFree = true) (h2 : (ungrouped pre mid post).concatFree = true)
+    (heo : eo.concatFree = true) :
+    okOpt (denoteReduce f (grouped pre mid post) eo) = okOpt (denoteReduce f (ungrouped pre mid post) eo) := by
+  rw [okOpt_denoteReduce f _ eo h1 heo, okOpt_denoteReduce f _ eo h2 heo]
+  unfold reduceCells
+  rw [shapeOf_eq (grouped pre mid post), shapeOf_eq (ungrouped pre mid post), rootDims_grouped, rootDims_ungrouped,
+    redX_regroup_input]
+
+/-- **Grouping axes of the output expression of a reduction with parentheses reshapes the result**: same cells in
+the same row-major order, the shape is that of the grouped expression (same number of elements). -/
+theorem denote_reduce_regroup_output (f : String) (e : Expr) (pre mid post : List Expr)
+    (he : e.concatFree = true)
+    (h1 : (grouped pre mid post).concatFree = true) (h2 : (ungrouped pre mid post).concatFree = true) :
+    (okOpt (denoteReduce f e (grouped pre mid post))).map (·.data)
+      = (okOpt (denoteReduce f e (ungrouped pre mid post))).map (·.data) := by
+  rw [okOpt_denoteReduce f e _ he h1, okOpt_denoteReduce f e _ he h2]
+  unfold reduceCells
+  rw [shapeOf_eq (grouped pre mid post), shapeOf_eq (ungrouped pre mid post), rootDims_grouped, rootDims_ungrouped,
+    genCells_regroup_output]
+  simp only [Option.map_map, Function.comp_def]
+
+theorem okOpt_denoteId_single (e1 e2 : Expr) (h1 : e1.concatFree = true) (h2 : e2.concatFree = true) :
+    okOpt (denoteId [e1] [e2])
+      = (idCells (rootDims e1) (shapeOf e1) 0 (rootDims e2) (shapeOf e2)).map (fun cs => [(⟨shapeOf e2, cs⟩ : Tensor Cell)]) := by
+  rw [denoteId_fun_agree e1 e2 h1 h2, okOpt_denoteIdFun_single e1 e2 h1 h2]
+
+/-- **Parentheses on the input expression of `id`** (executable loop form `Denote.denoteId`): `C08.denote_regroup_tensor`
+on expressions. -/
+theorem denoteId_regroup_input (pre mid post : List Expr) (eo : Expr)
+    (h1 : (grouped pre mid post).concatFree = true) (h2 : (ungrouped pre mid post).concatFree = true)
+    (heo : eo.concatFree = true) :
+    okOpt (denoteId [grouped pre mid post] [eo]) = okOpt (denoteId [ungrouped pre mid post] [eo]) := by
+  rw [okOpt_denoteId_single _ _ h1 heo, okOpt_denoteId_single _ _ h2 heo,
+    shapeOf_eq (grouped pre mid post), shapeOf_eq (ungrouped pre mid post), rootDims_grouped, rootDims_ungrouped,
+    idCells_regroup_input]
+
+/-- **Parentheses on the output expression of `id`**: the same cells in the same order (the result is reshaped). -/
+theorem denoteId_regroup_output (e : Expr) (pre mid post : List Expr) (he : e.concatFree = true)
+    (h1 : (grouped pre mid post).concatFree = true) (h2 : (ungrouped pre mid post).concatFree = true) :
+    (okOpt (denoteId [e] [grouped pre mid post])).map (List.map (·.data))
+      = (okOpt (denoteId [e] [ungrouped pre mid post])).map (List.map (·.data)) := by
+  rw [okOpt_denoteId_single _ _ he h1, okOpt_denoteId_single _ _ he h2,
+    shapeOf_eq (grouped pre mid post), shapeOf_eq (ungrouped pre mid post), rootDims_grouped, rootDims_ungrouped,
+    idCells_regroup_output]
+  simp only [Option.map_map, Function.comp_def, List.map_cons, List.map_nil]
+
+/-- Non-vacuity of the parenthesis laws: `sum: a [b c] d -> d a` against `sum: a ([b c]) d -> d a` (bracketed axes
+inside the group) and `-> (d a)`; `id: a b c d -> d (c b) a` against `a (b c) d`; sizes a = b = c = 2, d = 1.  The
+grouped and ungrouped expressions have different shapes, all results are defined, and the laws' conclusions hold. -/
+example :
+    let a := Expr.axis "a" 2; let b := Expr.axis "b" 2; let c := Expr.axis "c" 2; let d := Expr.axis "d" 1
+    let G := grouped [a] [.br (.list [b, c])] [d]; let U := ungrouped [a] [.br (.list [b, c])] [d]
+    let Go := grouped [] [d, a] []; let Uo := ungrouped [] [d, a] []
+    let Gi := grouped [a] [b, c] [d]; let Ui := ungrouped [a] [b, c] [d]
+    let eo := Expr.list [d, .flat (.list [c, b]), a]
+    G.concatFree = true ∧ U.concatFree = true ∧ Go.concatFree = true ∧ Uo.concatFree = true ∧
+    shapeOf G = [2, 4, 1] ∧ shapeOf U = [2, 2, 2, 1] ∧ shapeOf Go = [2] ∧ shapeOf Uo = [1, 2] ∧
+    (match okOpt (denoteReduce "sum" G Uo), okOpt (denoteReduce "sum" U Uo), okOpt (denoteReduce "sum" U Go) with
+      | some t1, some t2, some t3 => Tensor.beq t1 t2 && Cell.beqL t2.data t3.data && t3.shape == [2] && t2.shape == [1, 2]
+          && t2.data.length == 2
+      | _, _, _ => false) = true ∧
+    (match okOpt (denoteId [Gi] [eo]), okOpt (denoteId [Ui] [eo]) with
+      | some [t1], some [t2] => Tensor.beq t1 t2 && t1.data.length == 8 && !Tensor.beq t1 (symInput 0 [1, 4, 2])
+      | _, _ => false) = true := by
+  decide +kernel
+
 end Einx.C08b
